@@ -9,7 +9,8 @@
 //
 // ops (one per line):
 //
-//	reset n=<clients>                       settle + close the previous clients, open n new ones
+//	reset n=<clients> [slow=1]              settle + close the previous clients, open n new ones (slow=1: clients that can be stalled)
+//	stall c=<i> / resume c=<i>              the client stops / resumes reading its connection
 //	req c=<i> to=<svc> r=<id>/<script> ...  one frame with one or more requests to service <svc> (0 gate-1, k chat-k)
 //	go ms=<d>                               let d ms of virtual time pass
 //	close c=<i>                             the client closes its connection
@@ -271,12 +272,12 @@ func (e *GateRemote) Nap(ctx *as.RemoteContext, m *msgs.Kick) {
 
 type world struct {
 	n       *node.Node
-	clients []*node.Client
+	clients []cli
 	open    []bool
 	bound   []int
 }
 
-func (w *world) reset(nc int) string {
+func (w *world) reset(nc int, slow bool) string {
 	if len(w.clients) > 0 {
 		w.n.Advance(2 * time.Second)
 	}
@@ -303,7 +304,12 @@ func (w *world) reset(nc int) string {
 	w.clients, w.open, w.bound = nil, nil, nil
 	nets := []uint32{}
 	for i := 0; i < nc; i++ {
-		c := w.n.Connect("gate-1")
+		var c cli
+		if slow {
+			c = newGClient(w.n, "gate-1")
+		} else {
+			c = w.n.Connect("gate-1")
+		}
 		if !c.Open() {
 			return "err open"
 		}
@@ -387,7 +393,22 @@ func (w *world) exec(op string) string {
 		if nc < 1 || nc > 8 {
 			return "bad-op"
 		}
-		return w.reset(nc)
+		return w.reset(nc, hx.KVInt(ws, "slow") == 1)
+	case "stall", "resume":
+		ci := hx.KVInt(ws, "c")
+		if ci >= len(w.clients) || !w.open[ci] {
+			return "bad-op"
+		}
+		g, ok := w.clients[ci].(*gclient)
+		if !ok {
+			return "bad-op"
+		}
+		if ws[0] == "stall" {
+			g.stall()
+			return "-"
+		}
+		g.resume()
+		return w.collect()
 	case "req":
 		ci, to := hx.KVInt(ws, "c"), hx.KVInt(ws, "to")
 		if ci >= len(w.clients) || to >= len(svcNames) || !w.open[ci] {
